@@ -37,6 +37,33 @@ type Case struct {
 // retransmission 1 s, 2 s, 4 s; data RTO 0.2, 0.4, 0.8 s).
 var StallQuiet = 15 * time.Second
 
+// quietNeeded is the wire silence that counts as a stall given what the wire
+// did lately: every further loss of the same exchange doubles the sender's
+// timer (SYN and SYN-ACK 1, 2, 4, 8, 16 s; data 0.2, 0.4, ... s), so a program
+// that stacks k faults on one exchange (drops, transmit errors, both
+// directions) legitimately produces a silence of 2^(k-1) s. k is counted over
+// the last dozen events; the bound stays below the 90 s connect deadline.
+func quietNeeded(ev []netsim.Event) time.Duration {
+	from := len(ev) - 12
+	if from < 0 {
+		from = 0
+	}
+	k := 0
+	for _, e := range ev[from:] {
+		if e.Action != "" {
+			k++
+		}
+	}
+	d := time.Duration(1<<uint(k)+2) * time.Second
+	if d < StallQuiet {
+		d = StallQuiet
+	}
+	if d > 70*time.Second {
+		d = 70 * time.Second
+	}
+	return d
+}
+
 // OnStall is a debugging hook invoked when a stall is detected, before the
 // harness tears the connection down.
 var OnStall func(p *netsim.Pair)
@@ -67,6 +94,7 @@ type side struct {
 	werr     *tcpip.Error
 	wrote    int
 	shutdown bool
+	closed   bool  // the application closed the socket (scenario closeearly)
 	prog     int64 // bytes read + written so far (atomic; read by the watchdog)
 }
 
@@ -134,8 +162,29 @@ func (s *side) readAll(stop <-chan struct{}) {
 	}
 }
 
-// Run executes one case.
+// Run executes one case. A keep-alive reset on a fault-free network is a
+// verdict that depends on the harness host: with a 5 ms probe interval and four
+// probes the peer's protocol goroutine only has to go unscheduled for 25 ms on
+// a loaded machine to be declared dead, which is what keep-alive is for. Such a
+// verdict is reported only when two further runs of the case end the same way
+// (an endpoint that does not answer probes fails every time).
 func Run(c Case) Result {
+	r := runOnce(c)
+	if r.Fail == nil || r.Fail.Sig != "error-without-fault" || c.Cfg.KeepaliveMs == 0 {
+		return r
+	}
+	for i := 0; i < 2; i++ {
+		r2 := runOnce(c)
+		if r2.Fail == nil || r2.Fail.Sig != r.Fail.Sig {
+			evid.Label("keepalive-reset-not-confirmed")
+			evid.Unconfirmed()
+			return r2
+		}
+	}
+	return r
+}
+
+func runOnce(c Case) Result {
 	var res Result
 	p := netsim.NewPair(c.Cfg)
 	defer p.Close()
@@ -150,13 +199,13 @@ func Run(c Case) Result {
 		case msg = <-estab:
 			waiting = false
 		case <-time.After(100 * time.Millisecond):
-			if p.W.SilentFor() > StallQuiet && !p.W.PendingFaults() {
+			if q := p.W.SilentFor(); q > StallQuiet && !p.W.PendingFaults() && q > quietNeeded(p.W.Events()) {
 				// The handshake is part of the property: a connect that neither
 				// completes nor fails while the wire stays silent is a stall.
 				res.Stalled = true
 				res.Events = p.W.Events()
 				res.Fired = p.W.Fired()
-				res.Fail = evid.Failf("stall:handshake", "handshake neither completed nor failed and the wire has been silent for %v\n%s", StallQuiet, p.TraceTail(30))
+				res.Fail = evid.Failf("stall:handshake", "handshake neither completed nor failed and the wire has been silent for %v\n%s", p.W.SilentFor().Round(time.Second), p.TraceTail(30))
 				if p.C != nil {
 					p.C.EP.Close()
 				}
@@ -181,6 +230,9 @@ func Run(c Case) Result {
 	res.Established = true
 	wantAB := pattern(1, c.Sc.AtoB)
 	wantBA := pattern(2, c.Sc.BtoA)
+	if c.Sc.Kind == "closeearly" {
+		wantBA = nil // A is gone after its Close: nothing can be sent to it
+	}
 	A := &side{name: "A", sock: p.C, want: wantBA}
 	B := &side{name: "B", sock: p.S, want: wantAB}
 	stop := make(chan struct{})
@@ -206,6 +258,32 @@ func Run(c Case) Result {
 		run(func() { A.writeAll(wantAB, stop) })
 		run(func() { B.readAll(stop); time.Sleep(5 * time.Millisecond); B.writeAll(wantBA, stop) })
 		run(func() { A.readAll(stop) })
+	case "closeearly":
+		// A writes and closes the socket at once (Close, not Shutdown: data and FIN may still be
+		// unacknowledged); the stack has to finish the exchange on its own. B reads to EOF and closes.
+		run(func() {
+			rem := wantAB
+			for len(rem) > 0 {
+				n, err, ok := A.sock.Write(rem, 2*time.Second)
+				A.wrote += n
+				atomic.AddInt64(&A.prog, int64(n))
+				rem = rem[n:]
+				if err != nil {
+					A.werr = err
+					return
+				}
+				if !ok {
+					select {
+					case <-stop:
+						return
+					default:
+					}
+				}
+			}
+			A.sock.EP.Close()
+			A.closed, A.shutdown, A.eof = true, true, true
+		})
+		run(func() { B.readAll(stop); B.writeAll(nil, stop) })
 	case "simultaneous":
 		run(func() { A.writeAll(wantAB, stop) })
 		run(func() { B.writeAll(wantBA, stop) })
@@ -264,7 +342,7 @@ func Run(c Case) Result {
 					}
 				}
 			}
-			if (p.W.SilentFor() > StallQuiet || noProgress) && !p.W.PendingFaults() {
+			if q := p.W.SilentFor(); (q > StallQuiet || noProgress) && !p.W.PendingFaults() && (noProgress || q > quietNeeded(p.W.Events())) {
 				res.Stalled = true
 				res.Events = p.W.Events()
 				stallState = fmt.Sprintf("A: got %d/%d eof=%v wrote %d err=%v/%v; B: got %d/%d eof=%v wrote %d err=%v/%v", len(A.got), len(A.want), A.eof, A.wrote, A.rerr, A.werr, len(B.got), len(B.want), B.eof, B.wrote, B.rerr, B.werr)
@@ -333,6 +411,9 @@ func Run(c Case) Result {
 		res.Complete = true
 		// nothing may appear after end of stream
 		for _, s := range []*side{A, B} {
+			if s.closed {
+				continue
+			}
 			v, _, err := s.sock.EP.Read(nil)
 			if err != tcpip.ErrClosedForReceive {
 				res.Fail = evid.Failf("after-eof", "%s: Read after end of stream returned %d bytes, err=%v", s.name, len(v), err)
@@ -343,6 +424,9 @@ func Run(c Case) Result {
 		if !closingExchangeDisturbed(res.Events) {
 			time.Sleep(20 * time.Millisecond)
 			for _, s := range []*side{A, B} {
+				if s.closed {
+					continue
+				}
 				if e := s.sock.EP.GetSockOpt(tcpip.ErrorOption{}); e != nil {
 					res.Fail = evid.Failf("close-error", "%s: ErrorOption=%v after an undisturbed closing exchange\n%s", s.name, e, trace())
 					return res
